@@ -73,7 +73,7 @@ def requirements(tier):
            "graph:histories": 10000, "graph:pair-checks": 200000, "registry:registrations": 100, "registry:probe-comparisons": 10000,
            "registry:new-frame-roundtrips": 1000, "registry:origin-checks": 30, "registry:nested-orbit-frame": 10,
            "registry:name-differs-by-case-only": 10, "registry:name-registered-again-under-another-parent": 5,
-           "registry:name-asked-before-it-exists": 30, "registry:unconnected-frame-reported": 40, "registry:user-orientation-linked-roundtrips": 20}
+           "registry:name-asked-before-it-exists": 30, "registry:local-frame-under-a-parent-named-otherwise-than-its-orientation": 5, "registry:kind:station-equatorial": 8, "registry:unconnected-frame-reported": 40, "registry:user-orientation-linked-roundtrips": 20}
     return req
 
 
@@ -295,11 +295,12 @@ def case_registry(ctx, job, idx, rng, st):
     ctx.case({"scenario": idx, "states": [s[0] for s in states]})
     registered = []  # names of frames created so far (all reachable from the built-ins)
     station_names = []
+    inertial_hosts = []  # registered frames with inertial axes and a name of their own: body frames, orbit frames without orientation
     ref = probe_set(pairs)
     old_pairs = list(pairs)
     n_reg = 24
     for step in range(n_reg):
-        kind = rng.choice(["station", "station", "orbit-none", "orbit-qsw", "orbit-tnw", "body"])
+        kind = rng.choice(["station", "station", "station-equatorial", "orbit-none", "orbit-qsw", "orbit-tnw", "orbit-qsw", "body"])
         name = f"R{idx}x{step}"
         twins = [r.swapcase() for r in registered if r.startswith("R") and r.swapcase() not in registered]
         if kind != "body" and twins and rng.random() < 0.3:
@@ -319,6 +320,26 @@ def case_registry(ctx, job, idx, rng, st):
         try:
             if kind == "station":
                 create_station(name, (rng.uniform(-89, 89), rng.uniform(-180, 360), rng.uniform(-400, 9000)))
+            elif kind == "station-equatorial":
+                # the documented variant whose axes are the inertial ones (right ascension / declination from the site)
+                create_station(name, (rng.uniform(-89, 89), rng.uniform(-180, 360), rng.uniform(-400, 9000)), equatorial=True)
+            elif kind.startswith("orbit") and kind != "orbit-none" and inertial_hosts and rng.random() < 0.4:
+                # a local orbital frame whose parent is a frame registered earlier whose NAME is not the name of its
+                # orientation (the Moon- / Sun-centred frames, an orbit-attached frame with inertial axes)
+                host = rng.choice(inertial_hosts)
+                orient = {"orbit-qsw": "QSW", "orbit-tnw": "TNW"}[kind]
+                for coord, d in rng.sample(states, 3):
+                    ref_state = Orbit(coord, d, "cartesian", "EME2000", Kepler()).copy(frame=host)
+                    # (not the state the host frame itself is attached to: it sits at the host's origin, where local axes are undefined)
+                    if float(np.linalg.norm(probe.arr(ref_state)[:3])) > 1e3:
+                        break
+                orbit2frame(name, ref_state, orientation=orient, parent=get_frame(host))
+                ctx.count("registry:local-frame-under-a-parent-named-otherwise-than-its-orientation")
+                at = StateVector(coord, d, "cartesian", "EME2000").copy(frame=name)
+                off = float(np.linalg.norm(probe.arr(at)[:3]))
+                ctx.count("registry:origin-checks")
+                ctx.resid("registry:reference-state-at-origin", off, 1e-5 + 1e-12 * 1.6e11, key="C20/orbit-frame-chain-misplaces-origin-nested",
+                          witness=dict(w, new=name, host=host, offset=off), msg=f"the state used to create frame {name} is {off:.6g} m away from that frame's origin")
             elif kind.startswith("orbit"):
                 coord, d = states[rng.randrange(3)]
                 orient = {"orbit-none": None, "orbit-qsw": "QSW", "orbit-tnw": "TNW"}[kind]
@@ -385,6 +406,8 @@ def case_registry(ctx, job, idx, rng, st):
             registered.append(name)
             if kind == "station":
                 station_names.append(name)
+            if kind in ("body", "orbit-none"):
+                inertial_hosts.append(name)
     unlinked_orientation_scenario(ctx, idx, rng, states, registered)
     reparent_scenario(ctx, idx, rng, states, station_names)
 
